@@ -44,6 +44,8 @@ def gen_entry(g, gid=None, dflt=(), limits=None):
     e = Entry(gid, g, 'gen', gen_tu.tla_json(g, gid, dflt))
     e.dflt = tuple(dflt)
     e.limits = limits
+    if limits:
+        e.tla['deflimits'] = False
     return e
 
 
